@@ -63,6 +63,13 @@ Example C14_example_drain :
   run 100 t = Some [1; 2; 3; 2; 4; 2; 4; 4; 6] /\ den 0 t = [1; 2; 3; 2; 4; 2; 4; 4; 6].
 Proof. vm_compute. split; reflexivity. Qed.
 
+(* a join function that answers nil for SOME elements (x = 2) and otherwise a TakeWhile cut by a non-monotone
+   predicate before the end of its input (a later element satisfies it again) *)
+Example C14_example_nil_between :
+  let t := EJoinE (EWhen (PNe 2) (ETakeW (PMod 2 1) (EShift [0; 2; 1; 4]))) (ESlice [1; 2; 3]) in
+  run 100 t = Some [1; 3; 3; 5] /\ den 0 t = [1; 3; 3; 5].
+Proof. vm_compute. split; reflexivity. Qed.
+
 Example C14_example_foreach :
   run_foreach 100 (fun k x => if Z.eqb x 3 then Some 77 else None)
               (EMap (MAff 1 1) (EDropW (PLt 1) (ESlice [0; 1; 2; 3; 4]))) = Some ([2; 3], Some 77).
